@@ -17,6 +17,10 @@ claimed = {
    text="Deductive proof in the SMT floating-point theory (exact IEEE-754 semantics, every bit pattern of operands and of a universally quantified probe point; no real-number idealisation) that the interval and rectangle algebra is sound w.r.t. point membership: r1.Interval, s1.Interval (incl. empty, full, inverted/wrapping intervals and both representations of +-pi), r2.Rect and the lat-lng s2.Rect: union contains every point of both operands, intersection contains every common point and (s1/s2) no point of neither / (r1/r2) exactly the common points, ContainsInterval/Contains and Intersects agree with point membership (with endpoint witnesses), AddPoint keeps old points and contains the new one, Complement covers, Project/ClampPoint land inside, results are valid. s1.Interval.Expanded (math.Remainder) is thorough-tier only; Cap algebra and ChordAngle arithmetic (sqrt, products) are NOT decided.",
    note=TRUST+"Standing assumptions: math.Max/Min/Abs/Remainder modelled by their IEEE/Go definitions; package-level rectangle constants keep their initial values. Unverified remainder: Cap (Contains/Union/AddCap/Expanded/Complement), ChordAngle Add/Sub, Rect.expanded, CapBound.",
    design="3 C19"),
+ 'C20': dict(
+   text="Deductive proof of the structural slice: Polyline.SubsampleVertices returns index 0 first, strictly increasing in-range indices, never two neighbours with equal points (float equality in its exact IEEE meaning), and its loop makes progress (decreases), for all polylines and tolerances, given the index contract of findEndVertex; every snapper constructor (NewCellIDSnapper, CellIDSnapperForLevel, NewIntLatLngSnapper) establishes 'declared snap radius = minimum snap radius of the declared level/exponent' bit-for-bit. Achieved tessellation/subsampling/snapping error versus the tolerance is numerical and NOT decided.",
+   note=TRUST+"Assumed contract: findEndVertex returns an index in (index, len) (numerical). Unverified remainder: EdgeTessellator, projections, distance a snapped point moves, IntLatLngSnapper.SnapPoint units.",
+   design="3 C20"),
  'C15': dict(
    text="Deductive proof over the whole decode call graph (Point, Cap, Rect, CellID, Cell, CellUnion, Polyline, Loop, Polygon in both formats, compressed point decoding, face runs, derivative coder) against an adversarial input stream (every read returns an unconstrained value and error status = all byte strings of all lengths): no index/slice/nil/make-size/division panic, every make() is within the documented limits (vertices 50M, loops 10M, cells 1M) on the value actually passed, decode loops terminate (counting loops or decreases clauses), and Decode returns a non-nil error whenever a read failed or a validity check raised an error (ghost event flags). Usability of the decoded value by float geometry (initBound, index build) is outside and listed as assumed.",
    note=TRUST+"Assumed contracts (listed in evidence): NewShapeIndex, ShapeIndex.Add, ExpandForSubregions, Loop.initBound, Polygon.initLoopProperties, Polygon.initEdgesAndIndex, facePiQitoXYZ, CellFromCellID; stdlib I/O models (binary.Read, ReadUvarint, io.ReadFull, ReadByte).",
